@@ -4,11 +4,11 @@ package main
 
 import (
 	"fmt"
-	"regexp"
 	"go/ast"
 	"go/constant"
 	"go/token"
 	"go/types"
+	"regexp"
 	"strconv"
 	"strings"
 )
@@ -16,17 +16,17 @@ import (
 var fsetSpec = token.NewFileSet()
 
 type SpecScope struct {
-	c       *FnCtx
-	cur     *State
-	old     *State
-	vars    map[string]Val
-	oldVars map[string]Val
-	pure    bool // inside a spec function body: no state
-	err     []string
-	bound   map[string]bool
+	c             *FnCtx
+	cur           *State
+	old           *State
+	vars          map[string]Val
+	oldVars       map[string]Val
+	pure          bool // inside a spec function body: no state
+	err           []string
+	bound         map[string]bool
 	ghostOverride map[string]string
-	iter    *State // state at the head of the current loop iteration (iter_old)
-	ghostCur *State // ghost functions keep their current version inside old(...)
+	iter          *State // state at the head of the current loop iteration (iter_old)
+	ghostCur      *State // ghost functions keep their current version inside old(...)
 }
 
 func (sc *SpecScope) ghostSym(name string) string {
